@@ -339,10 +339,10 @@ def run(ctx):
     CFG['expiries'] = EXPIRIES
     CFG['shelve'] = True
     CFG['nodedup'] = 2
-    CFG['shelve_depth'] = 2 if not ctx.thorough else 99
+    CFG['shelve_depth'] = 2 if not ctx.thorough else 3
     CFG['reopen'] = ctx.thorough
     depth = 3 if not ctx.thorough else 4
-    max_states = 4000 if not ctx.thorough else 60000
+    max_states = 4000 if not ctx.thorough else 20000
     w0, _ = run_history([])
     seen = {canon(w0): []}
     frontier = [[]]
@@ -383,7 +383,7 @@ def run(ctx):
             'queries_per_state': len(observe(w0)),
             'alphabet': {'subjects': {s: SUBJECTS[s] for s in CFG['subjects']}, 'sources': SOURCES, 'infos': sorted(INFOS),
                          'expiry_offsets': EXPIRIES, 'tick': TICK},
-            'rule': 'BFS over histories of set/add(Population)/tick/reset/delete on a fresh real Cache (memory) and the same history on the shelve-backed Cache%s (quick: every history of length <= 2; thorough: every transition); after every step %d queries (get, active, get_identity with entity lists, entities, stale sources, subjects; with and without expiry checking) are compared with a reference dict under the virtual clock and between the two back-ends; states merged by (reference content, clock) from depth 3 on (histories of length <= 2 are all kept distinct, so that implementation state the reference does not have - caches, memos - is exposed by their futures)' % (' reopened between steps' if ctx.thorough else '', len(observe(w0))),
+            'rule': 'BFS over histories of set/add(Population)/tick/reset/delete on a fresh real Cache (memory) and the same history on the shelve-backed Cache%s (quick: every history of length <= 2; thorough: length <= 3); after every step %d queries (get, active, get_identity with entity lists, entities, stale sources, subjects; with and without expiry checking) are compared with a reference dict under the virtual clock and between the two back-ends; states merged by (reference content, clock) from depth 3 on (histories of length <= 2 are all kept distinct, so that implementation state the reference does not have - caches, memos - is exposed by their futures)' % (' reopened between steps' if ctx.thorough else '', len(observe(w0))),
         },
         'assumptions': ['expiry exactly at now counts as not yet passed (the quantifier lists before/at/after); expiry 0 with non-empty info is not generated',
                         'queries on never-stored subjects/sources: any exception or empty result counts as no data'],
